@@ -486,6 +486,13 @@ func (m *MetadataStore) GroupJoin(ctx context.Context, g *protocoltypes.Group) (
 		return nil, errcode.ErrCode_ErrDeserialization.Wrap(err)
 	}
 
+	// an invitation only ever designates a multi-member group: under any other
+	// type the group would be opened with the account and device keys of the
+	// account instead of keys derived for that group
+	if g.GetGroupType() != protocoltypes.GroupType_GroupTypeMultiMember {
+		return nil, errcode.ErrCode_ErrGroupInvalidType
+	}
+
 	if m.checkIfInGroup(g.PublicKey) {
 		return nil, errcode.ErrCode_ErrInvalidInput.Wrap(fmt.Errorf("already present in group"))
 	}
